@@ -103,6 +103,8 @@ def _soup_texts(tier, seed, salt):
     """texts shared by C02/C03/C04: unusual inputs, exhaustive soups of <= 2 fragments, random soups, grammar scripts"""
     for t in UNUSUAL_TEXTS:
         yield t
+    for t in domain.keyword_phrase_texts():
+        yield t
     seps2 = (' ', '') if tier == 'quick' else (' ', '', '\n', ' /* c */ ')
     for t in domain.soups(2, seps=seps2):
         yield t
@@ -339,6 +341,19 @@ def _parse(text):
 def oracle_C02(case):
     sqlparse, sql, T, lexer, _ = _lib()
     text = case
+    if isinstance(case, tuple) and case and case[0] == 'after-mutation':
+        # the same check after an earlier result for the SAME text was modified in place by its owner (trees returned by
+        # parse() belong to the caller; a later call must not hand the modified objects out again)
+        text = case[1]
+        try:
+            first = sqlparse.parse(text)
+            from sqlparse import filters
+            for st_ in first:
+                filters.StripWhitespaceFilter().process(st_)
+                if st_.tokens:
+                    st_.tokens[-1].value = st_.tokens[-1].value + '/*edited*/'
+        except Exception:   # noqa: BLE001  (the disturbing calls are not under test)
+            pass
     stmts, e = _parse(text)
     if e is not None:
         return None if _is_parse_error(e) else _exc(e, text, 'parse')
@@ -369,7 +384,14 @@ def oracle_C02(case):
 
 
 def cases_C02(tier, seed):
-    return _soup_texts(tier, seed, 2)
+    n = 0
+    for t in _soup_texts(tier, seed, 2):
+        yield t
+        n += 1
+        if n % 60 == 0 and isinstance(t, str) and t.strip():
+            yield ('after-mutation', t)
+    for t in smoke_C02():
+        yield ('after-mutation', t)
 
 
 def classify_C02(case, failure):
@@ -611,8 +633,19 @@ def oracle_C03(case):
     return None
 
 
+def _deep_texts():
+    """statements nested far deeper than any fixed small bound (the navigation helpers walk the whole parent chain)"""
+    for depth in (40, 120, 260):
+        yield 'select a from t where ' + '(' * depth + 'x = 1' + ')' * depth + ' and y = 2'
+        yield 'select ' + 'f(' * depth + 'a' + ')' * depth + ' from t'
+        yield 'select ' + 'case when a then ' * (depth // 4) + '1' + ' end' * (depth // 4) + ' from t'
+
+
 def cases_C03(tier, seed):
-    return _soup_texts(tier, seed, 3)
+    for t in _deep_texts():
+        yield t
+    for t in _soup_texts(tier, seed, 3):
+        yield t
 
 
 def classify_C03(case, failure):
